@@ -1805,3 +1805,8 @@ package ice
 //@ func (*chunkedIntCoder).Write
 //@   at call:encoding/binary.PutUvarint#0 lemma[C01,C10] len(chunkOffsets) == len(c.chunkLens) && arr(chunkOffsets) == arr(c.chunkLens) && off(chunkOffsets) == off(c.chunkLens)
 //@   at call:encoding/binary.PutUvarint#0 lemma[C01,C10] uvval(contents(buf), off(buf), len(buf)) == len(c.chunkLens) && result0 >= 1
+//@
+//@ // ---- C03/C06: a segment's stored section is byte-copied (keeping its segment-local field ids)
+//@ // only when the field lists are the same across all inputs and the segment has no deletions ----
+//@ func mergeStoredAndRemap
+//@   at call:(*Segment).copyStoredDocs#0 lemma[C03,C06] fieldsSame && (dropsI == nil || card(bset(dropsI)) == 0)
